@@ -94,7 +94,8 @@ def compile_worker(args):
             job = ScriptJob()
             for t in h[:-1]:
                 job.load_string(t)
-            jp = job.load_string(h[-1])
+            job.load_string(h[-1])
+            jp = job.program                      # what execute() would run
             jgot = None if not jp else [repr(i) for i in jp]
             jwant = want[2] if want[0] is True else None
             jwant = jwant if jwant else None
